@@ -320,12 +320,14 @@ def run(chk):
             cc.add_single_site_control(m.copy(), site, step, post)
             per_site[site].append((step, post, m))
         rhos = [oqupy.operators.spin_dm(rng.choice(["x+", "y-", "z+"]) if i >= 4 else rng.choice(["x+", "y-"])) for _ in range(nsites)]
-        info = {"kind": "PtTebd+ChainControl", "sites": nsites, "N": N, "controls": [[(st, po) for st, po, _ in h] for h in per_site]}
+        # every run: the documented execution modes of the chain back-end (gate layers in worker processes / threads)
+        mode_ = [None, None, "multiprocess", "multithread"][i % 4]
+        info = {"kind": "PtTebd+ChainControl", "sites": nsites, "N": N, "controls": [[(st, po) for st, po, _ in h] for h in per_site], "parallel": mode_}
         try:
             chain = oqupy.SystemChain([d] * nsites)
             tb = oqupy.PtTebd(initial_augmented_mps=oqupy.AugmentedMPS(rhos), system_chain=chain, process_tensors=[None] * nsites,
                               parameters=oqupy.PtTebdParameters(dt=0.1, order=1, epsrel=1e-12), dynamics_sites=list(range(nsites)),
-                              chain_control=cc)
+                              chain_control=cc, **({"backend_config": {"parallel": mode_}} if mode_ else {}))
             # the propagation in one call, or interrupted and resumed (a call that ends at an intermediate step, the same call again,
             # then the rest): a control of the junction step still acts exactly once
             if i % 2 == 1 and N >= 2:
